@@ -2112,6 +2112,19 @@ func (c *Ctx) ruleOptionsForwarded() {
 				}
 				return true
 			case *ssa.Slice:
+				// a slice of the options that keeps ALL of them: opt[:], opt[:len(opt)], opt[:len(opt):len(opt)].
+				// opt[:0:0] (an "empty list of the same type") drops the per-event wrapper, salt and info.
+				if x.Low != nil {
+					if k, isK := constInt(x.Low); !isK || k != 0 {
+						return false
+					}
+				}
+				if x.High != nil {
+					la := lenArg(x.High)
+					if la == nil || !derives(la, map[ssa.Value]bool{}) {
+						return false
+					}
+				}
 				return derives(x.X, seen)
 			case *ssa.Call:
 				if b, ok := x.Call.Value.(*ssa.Builtin); ok && b.Name() == "append" {
@@ -2188,12 +2201,38 @@ func (c *Ctx) ruleNoResweep() {
 			pt := tb.Of(gt.Call.Args[1])
 			if tb.Of(gt.Call.Args[0]).IsParam("0:maps") && pt.Is("Call", "(reflect.Value).Pointer") {
 				ok = true
+				// the sets created during the sweep are linked (nested-set-linked below), and a map a tag
+				// pointer led into is tracked by the OUTERMOST set: the test has to ask the whole chain
+				// of enclosing sets (isTracked), not only the set being swept (getTracked) — otherwise a
+				// pointer of three or more segments reaches a map that an inner sweep does not recognise
+				chain := calleeName(&gt.Call) == "(*filters/encrypt.trackedMaps).isTracked"
+				r.Check(chain, rule, "processUnfiltered:nested-map-chain", p.InstrPos(gt), "the nested-map test asks the whole chain of enclosing tracking sets", "the nested-map test only asks the set being swept (getTracked), not the enclosing sets: a map that a tag pointer of three or more segments led into is tracked by the outermost set, an inner sweep does not find it there and sweeps it again with a fresh record — its public value is redacted, its encrypted / hmac-ed value replaced")
 			}
 		}
 		r.Check(ok, rule, "processUnfiltered:nested-map", p.InstrPos(in), "a nested map is swept through its parent only when it is not tracked on its own", "a nested map value is swept with a fresh tracking set without first testing maps.getTracked(value.Pointer()): when a tag pointer led into that map, the record of its already filtered fields is ignored and public / encrypted / hmac-ed fields are redacted")
 	}
 	if n < 1 {
 		r.Und(rule, "instance-floor", "", "no nested-map sweep found in processUnfiltered")
+	}
+	// isTracked really walks the chain: a loop that follows .parent and asks each set
+	if it := p.Method(PkgEncrypt, "trackedMaps", "isTracked"); it != nil && it.Blocks != nil {
+		walks, asks := false, false
+		for _, b := range it.Blocks {
+			if !inCycle(b) {
+				continue
+			}
+			for _, in := range b.Instrs {
+				if fa, ok := in.(*ssa.FieldAddr); ok && fieldName(fa) == "parent" {
+					walks = true
+				}
+				if ci, ok := in.(ssa.CallInstruction); ok && calleeName(ci.Common()) == "(*filters/encrypt.trackedMaps).getTracked" {
+					asks = true
+				}
+			}
+		}
+		r.Check(walks && asks, rule, "isTracked:walks-parents", p.Pos(it.Pos()), "isTracked asks every set on the parent chain", "isTracked does not loop over the parent chain asking each set")
+	} else {
+		r.Und(rule, "isTracked:walks-parents", "", "(*trackedMaps).isTracked not found")
 	}
 	// every tracking set created during the sweep is linked to the set being swept, so that maps
 	// found deeper down (in slices, in struct values) are recognised as tracked by an enclosing sweep
@@ -5220,8 +5259,8 @@ func (c *Ctx) ruleRejectLeavesState(rule string, fn *ssa.Function, recvType stri
 }
 
 // isSinkDir: t names a directory of the sink — fs.Path itself, or the directory the
-// active file lives in when the configured FileName carries a directory part:
-// Dir(Join(fs.Path, fs.FileName)) or Join(fs.Path, Dir(fs.FileName)).
+// sink's files live in when the configured FileName carries a directory part:
+// Dir(Join(fs.Path, <pattern formatted>)) or Join(fs.Path, Dir(fs.FileName)).
 func isSinkDir(t *Term) bool {
 	return t.String() == "Field[Path](Param(0:fs))" || isActiveFileDir(t)
 }
@@ -5234,9 +5273,17 @@ func isActiveFileDir(t *Term) bool {
 		}
 		return x.Args[0].Args[0], x.Args[0].Args[1], true
 	}
+	// Dir(Join(Path, <a rotated file's name>)): the name is the sink's pattern formatted with
+	// some stamp, or newFileName(...). (Dir(Join(Path, FileName)) is NOT it: for an empty
+	// FileName the join is Path itself and its Dir the parent of Path — F53.)
 	if t.Is("Call", "path/filepath.Dir") && len(t.Args) == 1 {
-		if a, b, ok := join2(t.Args[0]); ok && a.String() == path && b.String() == name {
-			return true
+		if a, b, ok := join2(t.Args[0]); ok && a.String() == path {
+			if b.Is("Call", "(*eventlogger.FileSink).newFileName") {
+				return true
+			}
+			if b.Is("Call", "fmt.Sprintf") && len(b.Args) >= 1 && b.Args[0].Find(func(x *Term) bool { return x.Is("Call", "(*eventlogger.FileSink).fileNamePattern") }) != nil {
+				return true
+			}
 		}
 	}
 	if a, b, ok := join2(t); ok && a.String() == path && b.Is("Call", "path/filepath.Dir") && len(b.Args) == 1 && b.Args[0].String() == name {
@@ -5601,4 +5648,171 @@ func (c *Ctx) ruleTaggableFieldAlways(rule string) {
 		return
 	}
 	r.Ok(rule, "filterField:taggable-field-unconditional", p.Pos(fn.Pos()), fmt.Sprintf("%d paths with a Taggable field: tags applied before the plain walk on each", nPos))
+}
+
+// ruleRegistryNodeReaders (C07.node registry-node-readers): the Node value held by the
+// registry (nodeUsage.node) is read only where a pipeline is LINKED from it
+// (RegisterPipeline) and where it leaves the registry (unregisterNode). Nothing that
+// acts for registered pipelines — Send, Reopen — takes its nodes from there: after an
+// id is re-registered the registry holds the NEW node while pipelines registered before
+// still run the OLD one, so whoever works off the registry's node touches (or misses)
+// pipelines registered before the re-registration.
+func (c *Ctx) ruleRegistryNodeReaders(rule string) {
+	p, r := c.P, c.R
+	allowed := map[string]string{
+		"(*eventlogger.Broker).RegisterPipeline": "links the pipeline from the nodes registered now",
+		"(*eventlogger.Broker).unregisterNode":   "hands the node out of the registry to be closed",
+	}
+	n := 0
+	for _, f := range p.FuncsIn(PkgRoot) {
+		root := f
+		for root.Parent() != nil {
+			root = root.Parent()
+		}
+		eachInstr(f, func(in ssa.Instruction) {
+			ld, ok := in.(*ssa.UnOp)
+			if !ok || ld.Op != token.MUL {
+				return
+			}
+			fa, ok := ld.X.(*ssa.FieldAddr)
+			if !ok || typeShort(fa.X.Type()) != "eventlogger.nodeUsage" || fieldName(fa) != "node" {
+				return
+			}
+			n++
+			why, ok2 := allowed[p.ShortFn(root)]
+			r.Check(ok2, rule, p.ShortFn(root)+":registry-node-readers", p.InstrPos(in), "the registry's node is read where "+why,
+				p.ShortFn(root)+" takes a Node from the registry (nodeUsage.node) and works with it: the registry holds whatever was registered LAST under the id, while a pipeline registered before a re-registration still runs the node it was linked with — acting on the registry's node makes a re-registration reach into (or bypass) pipelines registered earlier")
+		})
+	}
+	if n < 2 {
+		r.Und(rule, "registry-node-readers:instance-floor", "", fmt.Sprintf("only %d reads of nodeUsage.node found (RegisterPipeline and unregisterNode expected)", n))
+	}
+}
+
+// ruleGateKeyAgreement (C17.cleanup key-agreement, also C11): a group is stored in the id
+// map under the id it carries (gatedEvent.id): the two places that take a group out —
+// the flush arm of Process by the key it computed, openGate by the group's own id field —
+// then name the same entry. A group stored under a derived key (trimmed, lower-cased)
+// but carrying the raw id is emitted by expiry / FlushAll and stays in the map for ever.
+func (c *Ctx) ruleGateKeyAgreement(rule string) {
+	p, r := c.P, c.R
+	n := 0
+	for _, f := range p.FuncsIn(PkgGated) {
+		tb := p.NewTerms(nil)
+		eachInstr(f, func(in ssa.Instruction) {
+			mu, ok := in.(*ssa.MapUpdate)
+			if !ok || !tb.Of(mu.Map).Is("Field", "gated") {
+				return
+			}
+			al, ok := stripConv(mu.Value).(*ssa.Alloc)
+			if !ok {
+				return
+			}
+			n++
+			var idVal ssa.Value
+			for _, st := range litStores(al) {
+				if fa, ok := st.Addr.(*ssa.FieldAddr); ok && fieldName(fa) == "id" {
+					idVal = st.Val
+				}
+			}
+			okKey := idVal != nil && (idVal == mu.Key || tb.Of(idVal).String() == tb.Of(mu.Key).String())
+			got := "<none>"
+			if idVal != nil {
+				got = shortStr(tb.Of(idVal).String(), 80)
+			}
+			r.Check(okKey, rule, p.ShortFn(f)+":key-agreement", p.InstrPos(in), "a group is stored under the id it carries", "a group carrying the id "+got+" is stored in the id map under "+shortStr(tb.Of(mu.Key).String(), 80)+": openGate removes groups by their own id field, so a group whose key differs from its id is emitted by expiry / FlushAll / Close but never leaves the map — later events of that id join the emitted group and are emitted again")
+		})
+		// every delete from the id map names the key a group was stored under: the function's own
+		// key expression, or the id field of a group
+		eachInstr(f, func(in ssa.Instruction) {
+			ci, ok := in.(ssa.CallInstruction)
+			if !ok || !isDeleteOf(ci, tb, "gated") {
+				return
+			}
+			kt := tb.Of(ci.Common().Args[1])
+			isIDField := kt.Is("Field", "id")
+			sameAsInsert := false
+			eachInstr(f, func(i2 ssa.Instruction) {
+				if mu, ok := i2.(*ssa.MapUpdate); ok && tb.Of(mu.Map).Is("Field", "gated") && tb.Of(mu.Key).String() == kt.String() {
+					sameAsInsert = true
+				}
+			})
+			r.Check(isIDField || sameAsInsert, rule, p.ShortFn(f)+":delete-key", p.InstrPos(in), "the entry deleted is named by a group's id field or by the key the group was stored under", "delete(w.gated, "+shortStr(kt.String(), 80)+") names neither a group's id field nor the key this function stores groups under")
+		})
+	}
+	if n < 1 {
+		r.Und(rule, "key-agreement:instance-floor", "", "no insertion of a fresh group into the id map found")
+	}
+}
+
+// ruleChainImmutable (C01.link chain-immutable, the store half of C04.immutable): a
+// linkedNode or registeredPipeline is written only through an object allocated by the
+// writing call (before it is published). Send walks these chains without any lock and
+// reads node.next AFTER the node's Process returned: a removal that takes the chain
+// apart (next = nil) ends an in-flight traversal in the middle of its pipeline.
+func (c *Ctx) ruleChainImmutable(rule string) {
+	p, r := c.P, c.R
+	n, bad := 0, 0
+	for _, f := range p.FuncsIn(PkgRoot) {
+		eachInstr(f, func(in ssa.Instruction) {
+			st, ok := in.(*ssa.Store)
+			if !ok {
+				return
+			}
+			fa, ok := st.Addr.(*ssa.FieldAddr)
+			if !ok {
+				return
+			}
+			ts := typeShort(fa.X.Type())
+			if ts != "eventlogger.linkedNode" && ts != "eventlogger.registeredPipeline" {
+				return
+			}
+			n++
+			if isFresh(fa.X) {
+				return
+			}
+			bad++
+			r.Bad(rule, p.ShortFn(f)+":chain-immutable:"+fieldName(fa), p.InstrPos(in), "the field "+fieldName(fa)+" of a "+ts+" that is not allocated by this call is assigned: a registered pipeline's chain is walked by Send without a lock, and a node's successors are read after the node returned — an in-flight traversal loses the nodes behind the one that is running")
+		})
+	}
+	if bad == 0 {
+		r.Check(n >= 3, rule, "chain-immutable", "", fmt.Sprintf("%d field stores, all through objects allocated by the storing call", n), "fewer than 3 stores into linkedNode / registeredPipeline found (linkNodes and RegisterPipeline expected)")
+	}
+}
+
+// ruleKeyBufferFresh (C19.confined key-buffer-fresh, the store rule of C16.atomic under
+// C19): salt and info taken from a rotation payload are stored as freshly allocated
+// slices. The slice the filter held before may be shared — two Filters built from one
+// configuration slice, or the slice a caller handed to Rotate — and each filter reads
+// its salt under ITS OWN lock: writing the new value through the old buffer is a write
+// under filter A's lock to memory filter B reads under B's, a data race between stock
+// nodes (and B silently derives another key).
+func (c *Ctx) ruleKeyBufferFresh(rule string) {
+	p, r := c.P, c.R
+	fn := c.Fn(rule, PkgEncrypt, "Filter", "Process")
+	if fn == nil {
+		return
+	}
+	n := 0
+	eachInstr(fn, func(in ssa.Instruction) {
+		st, ok := in.(*ssa.Store)
+		if !ok {
+			return
+		}
+		fa, ok := st.Addr.(*ssa.FieldAddr)
+		if !ok || typeShort(fa.X.Type()) != "encrypt.Filter" {
+			return
+		}
+		nm := fieldName(fa)
+		if nm != "HmacSalt" && nm != "HmacInfo" {
+			return
+		}
+		n++
+		vt := p.NewTerms(nil).Of(st.Val)
+		r.Check(vt.Is("Make", "slice"), rule, p.ShortFn(fn)+":key-buffer-fresh:"+nm, p.InstrPos(in), "the rotated "+nm+" is a freshly allocated slice",
+			"the rotated "+nm+" is "+shortStr(vt.String(), 100)+", which can reuse the array the filter held before: that array may be shared with another Filter (or the caller), which reads it under its own lock — a data race between two stock nodes, and the other filter's HMAC key changes without a rotation")
+	})
+	if n < 2 {
+		r.Und(rule, "key-buffer-fresh:instance-floor", "", "fewer than 2 stores of salt / info found in the rotation arm of Process")
+	}
 }
